@@ -216,6 +216,14 @@ def comp_parts(e: ast.AST):
     """single-generator comprehension -> (elt, target, iter, ifs) else None"""
     if isinstance(e, (ast.ListComp, ast.GeneratorExp, ast.SetComp)) and len(e.generators) == 1:
         g = e.generators[0]
+        # [v for v in [E for t in X if C] if D(v)]  ==  [E for t in X if C if D(E)]   (a pure filter over an inner comprehension)
+        inner = g.iter
+        if isinstance(inner, (ast.ListComp, ast.GeneratorExp)) and len(inner.generators) == 1 and isinstance(g.target, ast.Name) \
+                and isinstance(e.elt, ast.Name) and e.elt.id == g.target.id and not isinstance(e, ast.SetComp):
+            from .flow import subst as _sub
+            ig = inner.generators[0]
+            ifs = list(ig.ifs) + [_sub(c, {g.target.id: inner.elt}) for c in g.ifs]
+            return inner.elt, ig.target, ig.iter, ifs
         return e.elt, g.target, g.iter, g.ifs
     return None
 
